@@ -584,6 +584,32 @@ def run(prog, rep, tier):
     if _n16 < 1:
         raise CheckerError("R16.10: no C05 R5.5/R5.10 instance to lift")
 
+    # ------------------------------------------------------------ R16.13 a tar member is typed by its own name, not by a name that includes the archive's
+    # "Which reader handles a file depends only on its name": for a member that name is the path the
+    # archive records.  The string `<archive path>|<member>` that the program builds for display and for
+    # opening must not be what is classified - for a member at the archive's root the right-most
+    # components would then be read across the separator and the archive's own stem would decide
+    # (`logs.tar|wtmp` typed as text, `wtmp.tar|notes` as utmp).  The classified path derives from the tar
+    # entry's path call and from nothing else.
+    R1613 = rep.rule("R16.13", "the name of a tar member that is classified comes from the archive entry alone")
+    tb16 = prog.body("s4lib::readers::filepreprocessor::process_path_tar")
+    TH16 = ("Path::new", "::as_ref", "::deref", "::as_path", "to_path_buf", "::borrow", "::clone", "::into_owned", "to_string_lossy", "::as_str", "From>::from", "PathBuf::from",
+            "::unwrap", "::expect", "Try>::branch", "::to_owned", "::as_os_str", "::as_mut", "::to_str")
+    n1613 = 0
+    for c in tb16.live_calls():
+        if not c.d.endswith("to_filetype") or not c.args:
+            continue
+        n1613 += 1
+        os16 = tb16.origins(c.args[0], through_calls=TH16)
+        from_entry = [x_ for x_ in os16 if x_[0] == "call" and x_[2].startswith("tar::")]
+        other = [x_ for x_ in os16 if not (x_[0] == "call" and x_[2].startswith("tar::")) and x_[0] != "const"]
+        rep.examined(R1613, tb16.path + "|classified-name@%d" % n1613, sample={"line": c.line, "classifier": c.d.split("::")[-1], "name_from": sorted(set(x_[2].split("::")[-1] if x_[0] == "call" else x_[0] for x_ in os16))})
+        if other or not from_entry:
+            rep.violation(R1613, tb16.path + "|classified-name|not-entry-path", "process_path_tar (line %d) classifies a name that does not come from the archive entry alone (it derives from %s); when that is the composite '<archive>|<member>' string, "
+                          "a member at the archive root is typed across the separator: `logs.tar|wtmp` is read as text, `wtmp.tar|notes` as utmp" % (c.line, sorted(set(x_[2].split("::")[-1] if x_[0] == "call" else x_[0] for x_ in (other or os16)))))
+    if n1613 < 1:
+        raise CheckerError("R16.13: process_path_tar does not call the classifier")
+
     # ------------------------------------------------------------ R16.11 each compression suffix records its own container (path-sensitive)
     # For every documented compression suffix the function strips the suffix and calls itself with the
     # container that suffix names.  Decided by walking the CFG with the string comparisons of the suffix
